@@ -6,7 +6,7 @@ patch=$1; shift
 cd /verif
 wt=/tmp/mutrepo_$$
 git -C /repo worktree add --detach $wt HEAD -q || exit 3
-trap 'git -C /repo worktree remove --force '$wt' 2>/dev/null' EXIT
+trap 'git -C /repo worktree remove --force '$wt' 2>/dev/null; python3 /verif/tools/gen_src.py /repo /verif/coq/Gen/Src.v' EXIT   # Gen/Src.v back to /repo's source
 git -C $wt apply "$patch" || { echo "PATCH DOES NOT APPLY"; exit 3; }
 for id in "$@"; do
   cp evidence/$id.json /tmp/evidence_$id.bak 2>/dev/null
